@@ -141,8 +141,16 @@ func (th *Thread) callFn(fn *ssa.Function, args []Value, env []Value) Value {
 			return th.callValue(r, args, "redirect")
 		}
 	}
-	if ix, ok := st.eng.lookupIntrinsic(fn); ok {
+	if ix, key, ok := st.eng.lookupIntrinsicKey(fn); ok {
+		if st.spec != nil && !pureIntrinsics[key] {
+			panic(specFail{"impure intrinsic " + key})
+		}
 		return ix(th, fn, args)
+	}
+	if st.spec == nil && st.eng.cfg.Summarize && th.summarizable(fn) {
+		if v, ok := th.trySummarize(fn, args, env); ok {
+			return v
+		}
 	}
 	if fn.Blocks == nil {
 		st.abort("unsupported external function %s", name)
@@ -172,6 +180,9 @@ func (th *Thread) callFn(fn *ssa.Function, args []Value, env []Value) Value {
 		p := new(Value)
 		*p = zero(mustDeref(l.Type()))
 		fr.env[l] = p
+		if st.spec != nil {
+			st.spec.fresh[p] = true
+		}
 	}
 	fr.block = fn.Blocks[0]
 	for fr.block != nil {
@@ -222,6 +233,12 @@ func (fr *Frame) runBlocks() {
 		jumped := false
 		for _, instr := range fr.block.Instrs {
 			st.steps++
+			if st.spec != nil {
+				st.spec.steps++
+				if st.spec.steps > specMaxSteps {
+					panic(specFail{"step budget"})
+				}
+			}
 			if st.steps > st.eng.cfg.MaxSteps {
 				st.end("unwind", "step budget %d exceeded", st.eng.cfg.MaxSteps)
 			}
@@ -339,9 +356,13 @@ func (fr *Frame) visit(instr ssa.Instruction) continuation {
 	case *ssa.Panic:
 		panic(goPanic{v: fr.get(instr.X), kind: "explicit", site: posString(st.eng, instr.Pos())})
 	case *ssa.Send:
+		st.specDeny("send")
 		th.chanSend(fr.get(instr.Chan), fr.get(instr.X))
 	case *ssa.Store:
 		p := fr.get(instr.Addr).(*Value)
+		if st.spec != nil && !st.spec.fresh[p] {
+			panic(specFail{"store"})
+		}
 		if p == nil {
 			th.runtimePanic("nil pointer dereference", "invalid memory address or nil pointer dereference (store)")
 		}
@@ -358,9 +379,11 @@ func (fr *Frame) visit(instr ssa.Instruction) continuation {
 		fr.prev, fr.block = fr.block, fr.block.Succs[0]
 		return kJump
 	case *ssa.Defer:
+		st.specDeny("defer")
 		fn, args := fr.prepareCall(&instr.Call)
 		fr.defers = append(fr.defers, deferred{fn: fn, args: args, site: posString(st.eng, instr.Pos())})
 	case *ssa.Go:
+		st.specDeny("go")
 		fn, args := fr.prepareCall(&instr.Call)
 		site := posString(st.eng, instr.Pos())
 		st.spawn("go@"+site, func(t *Thread) { t.callValue(fn, args, site) })
@@ -378,6 +401,9 @@ func (fr *Frame) visit(instr ssa.Instruction) continuation {
 			addr = fr.env[instr].(*Value)
 		}
 		*addr = zero(mustDeref(instr.Type()))
+		if st.spec != nil {
+			st.spec.fresh[addr] = true
+		}
 	case *ssa.MakeSlice:
 		fr.env[instr] = th.makeSlice(instr, fr.get(instr.Len).(*Term), fr.get(instr.Cap).(*Term))
 	case *ssa.MakeMap:
@@ -401,6 +427,7 @@ func (fr *Frame) visit(instr ssa.Instruction) continuation {
 	case *ssa.Lookup:
 		fr.env[instr] = th.lookup(instr, fr.get(instr.X), fr.get(instr.Index))
 	case *ssa.MapUpdate:
+		st.specDeny("map update")
 		th.mapUpdate(fr.get(instr.Map), fr.get(instr.Key), fr.get(instr.Value))
 	case *ssa.TypeAssert:
 		fr.env[instr] = th.typeAssert(instr, fr.get(instr.X).(Iface))
@@ -418,6 +445,7 @@ func (fr *Frame) visit(instr ssa.Instruction) continuation {
 			}
 		}
 	case *ssa.Select:
+		st.specDeny("select")
 		fr.env[instr] = th.selectOp(fr, instr)
 	default:
 		st.abort("unsupported instruction %T in %s", instr, fr.fn)
